@@ -978,6 +978,14 @@ def canonical(events):
     return fresh_run(CANON, probe='digest', digest_before=True, events=list(events), states=True, timeout=300)
 
 
-def random_history(rng, events, maxlen):
+def random_history(rng, events, maxlen, p_other=0.35):
+    """Random history of 1..maxlen events: with probability p_other the next event is a
+    calculator / import / init / reinit event, otherwise an attribute event (uniform within the class)."""
+    attr = [e for e in events if event_kind(e) in BATCHABLE]
+    other = [e for e in events if event_kind(e) not in BATCHABLE]
     n = rng.randint(1, maxlen)
-    return [events[rng.randrange(len(events))] for _ in range(n)]
+    out = []
+    for _ in range(n):
+        pool = other if (other and rng.random() < p_other) else (attr or other)
+        out.append(pool[rng.randrange(len(pool))])
+    return out
